@@ -1,9 +1,83 @@
 import Driver.Util
-/-! driver ops of C02 (prefix `c02.`); filled in by the C02 work -/
+import Model.RdataSchema
+import Model.RdataIrregular
+import Model.RdataTable
+/-!
+driver ops of C02 (prefix `c02.`)
+
+value trees on the line protocol, space separated tokens:
+  `u` unit · `n<decimal>` · `b<hex>` (`b-` empty) · `N<name>` (syntax of `parseName`) ·
+  `( x1 … xk )` = right-nested pairs · `[ x1 … xk ]` = list
+
+  c02.dec <class> <type> <origin|none> <pfx-hex> <rdata-hex>   →  ok <tree> | err
+  c02.enc <class> <type> <origin|none> <tree>                   →  ok <hex> | invalid | needabs
+  c02.wf                                                        →  per-type static status (for the evidence)
+-/
 namespace Driver
 open Model
 
+partial def showVal : Val → String
+  | .unit => "u"
+  | .nat n => "n" ++ toString n
+  | .bytes b => "b" ++ toHexP b
+  | .name n => "N" ++ showName n
+  | .list vs => if vs.isEmpty then "[ ]" else "[ " ++ " ".intercalate (vs.map showVal) ++ " ]"
+  | .pair a b => "( " ++ " ".intercalate (spine (.pair a b)) ++ " )"
+where spine : Val → List String
+  | .pair a b => showVal a :: spine b
+  | v => [showVal v]
+
+mutual
+partial def parseVal : List String → Option (Val × List String)
+  | [] => none
+  | "u" :: ts => some (.unit, ts)
+  | "(" :: ts => do
+    let (items, ts') ← parseItems ")" ts
+    if items.isEmpty then none else some (seqV items, ts')
+  | "[" :: ts => do
+    let (items, ts') ← parseItems "]" ts
+    some (.list items, ts')
+  | t :: ts =>
+    match t.toList with
+    | 'n' :: ds => (String.ofList ds).toNat?.map fun n => (.nat n, ts)
+    | 'b' :: hs => (ofHex (String.ofList hs)).map fun b => (.bytes b, ts)
+    | 'N' :: ns => (parseName (String.ofList ns)).map fun n => (.name n, ts)
+    | _ => none
+partial def parseItems (close : String) : List String → Option (List Val × List String)
+  | [] => none
+  | t :: ts =>
+    if t = close then some ([], ts)
+    else do
+      let (v, ts') ← parseVal (t :: ts)
+      let (vs, ts'') ← parseItems close ts'
+      some (v :: vs, ts'')
+end
+
+def statusLine (e : Entry) : String :=
+  s!"{e.cls}/{e.typ}/{e.mnemonic}:custom={e.isCustom}"
+
 def handleC02 : List String → Option String
+  | ["c02.dec", c, t, o, p, r] => do
+    let c ← c.toNat?; let t ← t.toNat?
+    let o ← parseOptName o
+    let p ← ofHex p; let r ← ofHex r
+    some (match (lookup c t).decode o p r with
+      | .ok v => "ok " ++ showVal v
+      | .error _ => "err")
+  | "c02.enc" :: c :: t :: o :: toks => do
+    let c ← c.toNat?; let t ← t.toNat?
+    let o ← parseOptName o
+    let (v, left) ← parseVal toks
+    if !left.isEmpty then none
+    else
+      let e := lookup c t
+      let raw := e.pre v
+      let okCtor := if e.isCustom then true else validCtor e.schema o raw
+      if !okCtor then some "invalid"
+      else if hasRelName raw && !(match o with | some org => isAbs org | none => false) then some "needabs"
+      else some ("ok " ++ toHexP (e.encode o v))
+  | ["c02.wf"] => some (" ".intercalate (table.map statusLine))
+  | ["c02.types"] => some (" ".intercalate (modelledTypes.map fun p => s!"{p.1}/{p.2}"))
   | _ => none
 
 end Driver
